@@ -298,11 +298,37 @@ def run_case(ctx, case):
         csz = float(gr.cellsize)
         # corners strictly inside the lower-left and upper-right cells of the box
         fx0, fy0, fx1, fy1 = rng.uniform(0.1, 0.9, size=4)
+        edge = int(rng.integers(0, 4))
+        if edge == 1:
+            fx0 = fy0 = fx1 = fy1 = 0.5              # exactly on the cell centres
+        elif edge == 2:
+            fx0, fy0, fx1, fy1 = 0.001, 0.001, 0.999, 0.999   # close to the edges
+        elif edge == 3:
+            fx0, fy0, fx1, fy1 = 0.999, 0.999, 0.001, 0.001
         xl = float(gr.xllcorner) + (c0 + fx0) * csz
         xu = float(gr.xllcorner) + (c1 + fx1) * csz
         yl = float(gr.yllcorner) + (nrows - 1 - r1 + fy0) * csz
         yu = float(gr.yllcorner) + (nrows - 1 - r0 + fy1) * csz
+        # the cells that hold the two corners, located in exact arithmetic from the
+        # float coordinates actually passed; corners too close to a cell edge for
+        # the geometry's own resolution are not judged
+        from hyverif.oracles.gridgeom import Geom
+        import math as _m
+        gm = Geom(nrows, ncols, float(gr.xllcorner), float(gr.yllcorner), csz)
+        ca, da = gm.locate(xl, yl)
+        cb, db = gm.locate(xu, yu)
+        res = 100 * _m.ulp(max(abs(xl), abs(xu), abs(yl), abs(yu), abs(csz))) / csz
+        if ca < 0 or cb < 0 or min(da, db) < max(1e-6, res):
+            ctx.extra["clip-corner-on-edge-not-judged"] += 1
+            ca = None
+        else:
+            (ra, ka), (rb, kb) = gm.rowcol(ca), gm.rowcol(cb)
+            r0, r1, c0, c1 = rb, ra, ka, kb
+            if r0 > r1 or c0 > c1:
+                ca = None
         try:
+            if ca is None:
+                raise KeyError("skip")
             cg = gr.clip(xl, yl, xu, yu)
             okshape = tuple(cg.shape) == (r1 - r0 + 1, c1 - c0 + 1)
             okv = okshape and np.dtype(cg.dtype) == dt and \
@@ -324,6 +350,8 @@ def run_case(ctx, case):
                                .tolist()})
             ctx.check("clip.nodata", same_scalar(cg.nodata, gr.nodata),
                       "clip|nodata", case, None)
+        except KeyError:
+            pass
         except Exception as e:
             ctx.check("clip.values", False, "clip|raises", case, {"exc": repr(e)})
     if nrows * ncols >= 2 or dtype is not np.float64:
